@@ -919,6 +919,22 @@ fn run_leaf_inner(
             stats.state(&(hash_of(&model_obs(&run.model)), files, cum_bytes % FILE as u64));
         }
     }
+    // ---- C16, at the very end: truncate every queue at the largest position there is; the
+    // accounting must be back at the names-only baseline
+    if mon.c16 {
+        let queues: Vec<String> = run.model.queues.keys().cloned().collect();
+        let names_len: usize = queues.iter().map(|q| q.len()).sum();
+        for q in &queues {
+            if run.subject.log.as_mut().unwrap().truncate(q, ..=u64::MAX).is_err() {
+                return fail("diverged", format!("(seq.rs:{})", line!()));
+            }
+        }
+        let ru = run.subject.log().resource_usage();
+        stats.count("final_truncations_at_u64_max", 1);
+        if ru.memory_used_bytes != names_len {
+            return fail("mem-baseline", format!("after truncating every queue at u64::MAX (end of the history): memory_used_bytes {} != names {}", ru.memory_used_bytes, names_len));
+        }
+    }
     Ok(())
 }
 
@@ -1052,7 +1068,7 @@ pub fn c18_leaf(env: &mut Env, leaf: &Leaf) {
     // full run
     env.scratch.reset();
     env.stats.traces += 1;
-    let full = guarded(|| -> Result<(Vec<Outcome>, Vec<Obs>, Obs), String> {
+    let full = guarded(|| -> Result<(Vec<Outcome>, Vec<Obs>, Option<Obs>), String> {
         reset_hooks(0, false);
         let mut subject = Subject::open(&dir, PolicyCfg::Default).map_err(|e| format!("open failed: {e}"))?;
         let mut outs = vec![];
@@ -1066,8 +1082,9 @@ pub fn c18_leaf(env: &mut Env, leaf: &Leaf) {
         let image = read_image(&dir);
         drop(subject);
         set_image(&dir, &image);
-        let log = open_log(&dir, PolicyCfg::Default).map_err(|e| format!("recovery failed: {e}"))?;
-        Ok((outs, obs, observe(&log)))
+        // (a recovery that fails altogether is compared too: None)
+        let crash = open_log(&dir, PolicyCfg::Default).ok().map(|log| observe(&log));
+        Ok((outs, obs, crash))
     });
     let (f_outs, f_obs, f_crash) = match full {
         Ok(Ok(x)) => x,
@@ -1108,8 +1125,11 @@ pub fn c18_leaf(env: &mut Env, leaf: &Leaf) {
             set_image(&dir2, &image);
             let log = open_log(&dir2, PolicyCfg::Default).map_err(|e| format!("recovery failed: {e}"))?;
             let crash = observe(&log);
-            if q_obs(&crash, q) != q_obs(&f_crash, q) {
-                return Ok(Some(format!("after recovering a copy of the live directory: queue {} is {:?} in the full history but {:?} in the projected one", q, q_obs(&f_crash, q).map(|o| (o.recs.iter().map(|r| r.0).collect::<Vec<_>>(), o.last_pos)), q_obs(&crash, q).map(|o| (o.recs.iter().map(|r| r.0).collect::<Vec<_>>(), o.last_pos)))));
+            let Some(f_crash) = &f_crash else {
+                return Ok(Some(format!("after the full history the directory cannot be opened any more (queue {} is unavailable), while after the history without the calls addressed to other queues it opens and returns {:?}", q, q_obs(&crash, q).map(|o| (o.recs.iter().map(|r| r.0).collect::<Vec<_>>(), o.last_pos)))));
+            };
+            if q_obs(&crash, q) != q_obs(f_crash, q) {
+                return Ok(Some(format!("after recovering a copy of the live directory: queue {} is {:?} in the full history but {:?} in the projected one", q, q_obs(f_crash, q).map(|o| (o.recs.iter().map(|r| r.0).collect::<Vec<_>>(), o.last_pos)), q_obs(&crash, q).map(|o| (o.recs.iter().map(|r| r.0).collect::<Vec<_>>(), o.last_pos)))));
             }
             Ok(None)
         });
